@@ -576,16 +576,18 @@ Definition ms_decode_with (c : ctx) (p : vparams) (d_ok : bool) (x : expr) : epr
 Definition ms_decode (c : ctx) := ms_decode_with c (ctx_sane c).
 Definition ms_decode_consensus (c : ctx) := ms_decode_with c (ctx_consensus c).
 
-(* Tr::new(key, Some(TapTree::leaf(ms))): no check at all on the leaf *)
-Definition tr_new_leaf (s : summary) : epres := EOk.
+(* Tr::new(key, Some(tree)): Tap::top_level_checks on every leaf (/repo 6b65f152) *)
+Definition tr_new_leaf (s : summary) : epres := lift_t (top_level_checks CTap s).
 (* Wsh::new / Sh::new / Bare::new on an already built Miniscript: top_level_checks only *)
 Definition wrapper_new (c : ctx) (s : summary) : epres := lift_t (top_level_checks c s).
 (* Wsh / Sh / Bare ::from_tree = Miniscript::from_tree + top_level_checks (no validate) *)
 Definition wrapper_from_tree (c : ctx) (x : expr) : epres :=
   andthen (from_tree c x) (wrapper_new c (x_sum x)).
-(* a script leaf inside Tr::from_tree: from_tree + validate(Tap::CONSENSUS) *)
+(* a script leaf inside Tr::from_tree: from_tree + validate(Tap::CONSENSUS), and at the end
+   Self::new(internal_key, Some(tree)), which runs the top-level checks on the leaf *)
 Definition tr_leaf_from_tree (x : expr) : epres :=
-  andthen (from_tree CTap x) (lift_v (validate (ctx_consensus CTap) (x_sum x))).
+  andthen (andthen (from_tree CTap x) (lift_v (validate (ctx_consensus CTap) (x_sum x))))
+          (tr_new_leaf (x_sum x)).
 (* Descriptor::from_str: the wrapper, and for tr every leaf again under Tap::SANE *)
 Definition descriptor_from_str_inner (c : ctx) (x : expr) : epres :=
   match c with
